@@ -256,6 +256,19 @@ def _cfg_chunk(chunk):
                 nt += 1
             if got != exp:
                 fails.append({'case': {'raw': 'cfg(' + body + ')', 'cfgs': cfgs}, 'stage': 'cfg', 'detail': f'eval_cfg gives {got!r}, reference gives {exp!r}'})
+    # the outer parenthesis: cfg( that is never closed is a malformed expression (rejected), whatever the body
+    for body in chunk[:200]:
+        for raw in ('cfg(' + body, 'cfg(' + body + ') '):
+            if raw.endswith(')'):
+                continue
+            try:
+                got = eval_cfg(raw, CFGS[1])
+            except MesonException:
+                continue
+            except Exception as ex:
+                fails.append({'case': {'raw': raw, 'cfgs': CFGS[1]}, 'stage': 'cfg', 'detail': f'internal error escapes: {type(ex).__name__}: {ex}'})
+                continue
+            fails.append({'case': {'raw': raw, 'cfgs': CFGS[1]}, 'stage': 'cfg-unclosed', 'detail': f'eval_cfg({raw!r}) gives {got!r}: an unclosed cfg( expression is malformed and must be rejected'})
     return len(chunk) * len(CFGS), nt, fails
 
 
